@@ -34,6 +34,12 @@ namespace {
       for (const auto &kv : d.get_attrs()) { r += (first ? "" : ",") + kv.first + "=" + show_deep(kv.second, depth + 1); first = false; }
       return r + "}";
     }
+    // C++ exception objects handed to the script by a catch clause (boxed with the static type of the native handler)
+    if (ti.bare_equal(user_type<exception::eval_error>())) return "exc:eval_error";
+    if (ti.bare_equal(user_type<std::runtime_error>())) return "exc:runtime_error";
+    if (ti.bare_equal(user_type<std::out_of_range>())) return "exc:out_of_range";
+    if (ti.bare_equal(user_type<std::logic_error>())) return "exc:logic_error";
+    if (ti.bare_equal(user_type<std::exception>())) return "exc:exception";
     return vf::show_value(bv);
   }
 
